@@ -165,21 +165,28 @@ func (s *SessionKey) Decrypt(ciphertext []byte) ([]byte, error) {
 	var nonce [NonceSize]byte
 	copy(nonce[:], ciphertext[:NonceSize])
 
-	// Verify nonce is in expected range (optional, helps detect replay/reorder)
+	// The nonce must carry the peer's direction prefix: a message sealed by this
+	// side (reflected back to its sender) shares the key but not the direction.
 	s.mu.Lock()
 	expectedNonce := s.buildRecvNonce()
-	// Allow some slack for out-of-order delivery (up to 1024 messages ahead)
+	s.mu.Unlock()
+	if [4]byte(nonce[:4]) != [4]byte(expectedNonce[:4]) {
+		return nil, fmt.Errorf("unexpected nonce direction")
+	}
+
+	// Reject replayed or reordered messages: counters below the receive window
+	// have been accepted (or skipped) already.
 	nonceValue := binary.BigEndian.Uint64(nonce[4:])
-	expectedValue := binary.BigEndian.Uint64(expectedNonce[4:])
+	s.mu.Lock()
+	expectedValue := s.recvNonce
+	s.mu.Unlock()
 	if nonceValue < expectedValue {
-		s.mu.Unlock()
 		return nil, fmt.Errorf("nonce too old: received %d, expected >= %d", nonceValue, expectedValue)
 	}
-	// Update expected nonce if this one is higher
-	if nonceValue >= s.recvNonce {
-		s.recvNonce = nonceValue + 1
+	if nonceValue == ^uint64(0) {
+		// The window could not advance past the last counter value.
+		return nil, fmt.Errorf("nonce counter exhausted")
 	}
-	s.mu.Unlock()
 
 	aead, err := chacha20poly1305.New(s.key[:])
 	if err != nil {
@@ -190,6 +197,18 @@ func (s *SessionKey) Decrypt(ciphertext []byte) ([]byte, error) {
 	if err != nil {
 		return nil, fmt.Errorf("decrypt: %w", err)
 	}
+
+	// Advance the receive window only for authenticated messages, so that forged
+	// or corrupted input never changes what is accepted afterwards. Re-check under
+	// the lock: a concurrent Decrypt may have accepted this counter meanwhile.
+	s.mu.Lock()
+	if nonceValue < s.recvNonce {
+		expectedValue = s.recvNonce
+		s.mu.Unlock()
+		return nil, fmt.Errorf("nonce too old: received %d, expected >= %d", nonceValue, expectedValue)
+	}
+	s.recvNonce = nonceValue + 1
+	s.mu.Unlock()
 
 	return plaintext, nil
 }
